@@ -96,18 +96,26 @@ static json eig_event(const std::vector<std::vector<double>>& m, const std::vect
 		}
 	}
 	// ---- Eigensystem
+	// (every second case takes the vectors from the free function Eigenvectors, the other spelling the statement names)
+	static int sys_calls = 0;
+	bool via_free		 = (sys_calls++ % 2 == 1);
 	ChildResult r2 = run_child([&]() {
 		Matrix MM(m);
 		auto sys = Eigensystem(MM);
+		if(via_free)
+		{
+			Matrix M2(m);
+			sys.second = Eigenvectors(M2);
+		}
 		std::string s;
 		char b[40];
 		for(size_t i = 0; i < sys.first.size(); i++)
 		{
 			std::snprintf(b, sizeof b, "%.17g ", sys.first[i]);
 			s += b;
-			for(unsigned k = 0; k < sys.second[i].Size(); k++)
+			for(unsigned k = 0; k < sys.second.at(i).Size(); k++)
 			{
-				std::snprintf(b, sizeof b, "%.17g ", sys.second[i][k]);
+				std::snprintf(b, sizeof b, "%.17g ", sys.second.at(i)[k]);
 				s += b;
 			}
 		}
